@@ -477,9 +477,10 @@ func c11InBubble(ops []c11Op, hist []int) verifx.SearchResult {
 				return bad("dead-session-still-registered", "after %s: session s%d is terminated but Server.Sessions() still lists it", where, i+1)
 			}
 		}
-		h.mu.Lock()
-		nmap := len(h.sessions)
-		h.mu.Unlock()
+		nmap, nmapOK := 0, false
+		if ids, ok := privHandlerSessionIDs(h); ok {
+			nmap, nmapOK = len(ids), true
+		}
 		nalive, nclosing := 0, 0
 		for _, ms := range sess {
 			switch {
@@ -489,7 +490,7 @@ func c11InBubble(ops []c11Op, hist []int) verifx.SearchResult {
 				nalive++
 			}
 		}
-		if nmap < nalive || nmap > nalive+nclosing {
+		if nmapOK && (nmap < nalive || nmap > nalive+nclosing) {
 			return bad("handler-session-table", "after %s: the handler tracks %d sessions, %d are alive (%d closing)", where, nmap, nalive, nclosing)
 		}
 	}
